@@ -61,7 +61,7 @@ type sim struct {
 	users                         []*simUser
 	chans                         []*simChan
 	multiPrefix, uhNames, extJoin bool
-	whox, acctTag                 bool
+	whox, acctTag, acctNotify     bool
 	prof                          modeProfile
 	evs                           []Ev
 	pending                       []func()
@@ -242,7 +242,7 @@ func (s *sim) welcome(cfgNick string) {
 		s.cat("004")
 	}
 	if s.prof.chanmodes != "" || s.r.Intn(2) == 0 {
-		toks := []string{"NETWORK=TestNet", "CASEMAPPING=rfc1459", "NICKLEN=" + strconv.Itoa(9+s.r.Intn(30)), "CHANTYPES=#&+!", "SAFELIST", "EXCEPTS", "INVEX=I", "TOPICLEN=390", "MODES=4"}
+		toks := []string{"NETWORK=TestNet", Pick(s.r, "SILENCE=", "SILENCE=15", "EXCEPTS="), "CASEMAPPING=rfc1459", "NICKLEN=" + strconv.Itoa(9+s.r.Intn(30)), "CHANTYPES=#&+!", "SAFELIST", "EXCEPTS", "INVEX=I", "TOPICLEN=390", "MODES=4"}
 		if s.prof.chanmodes != "" {
 			toks = append(toks, "CHANMODES="+s.prof.chanmodes, "PREFIX="+s.prof.prefix)
 		}
@@ -355,10 +355,14 @@ func (s *sim) modeIs(c *simChan) {
 }
 
 func (s *sim) joinEv(u *simUser, c *simChan) {
-	// a user we already know without ident/host (plain NAMES): the WHO reply the client
-	// asked for when it joined arrives before the user shows up elsewhere
+	// A user we know only from a plain NAMES line has no ident/host yet: the JOIN prefix tells
+	// them. Sometimes the WHO reply the client asked for arrives first.
 	if s.visible(u) && !u.told && u != s.me {
-		s.who(nil, u)
+		if s.r.Intn(3) == 0 {
+			s.who(nil, u)
+		} else {
+			s.cat("join-known-without-identity")
+		}
 	}
 	e := s.from(u, "JOIN", s.chanV(c))
 	if s.extJoin {
@@ -372,7 +376,7 @@ func (s *sim) joinEv(u *simUser, c *simChan) {
 		}
 		s.cat("extended-join")
 	} else if e.HasAcct && !s.visible(u) {
-		e.HasAcct = false // a tag about somebody unknown needs the extended JOIN to go with it
+		s.cat("tag-on-introducing-join")
 	}
 	c.members[u] = &simMember{}
 	s.emit(e)
@@ -417,11 +421,14 @@ func (s *sim) meJoin() {
 		}
 		s.srv("315", s.me.nick, s.chanV(c), "End of /WHO list.")
 	}
-	if s.r.Intn(2) == 0 {
+	switch s.r.Intn(3) {
+	case 0:
 		whoAll()
 		reply()
-	} else {
+	case 1:
 		s.pending = append(s.pending, whoAll, reply)
+	default: // the WHO replies are still outstanding when the history ends
+		s.pending = append(s.pending, reply)
 	}
 }
 
@@ -632,6 +639,30 @@ func (s *sim) step() {
 		}
 		return
 	}
+	if r.Intn(12) == 0 && len(js) > 1 {
+		// somebody we already track joins another channel we are in: (a) known only from a plain
+		// NAMES line, so the JOIN prefix is the first we hear of ident/host; (b) logged out
+		// without account-notify, so the "*" of the extended JOIN is the first we hear of it
+		var cands []*simUser
+		for _, u := range ms {
+			if u != s.me && (!u.told || (s.extJoin && !s.acctNotify && u.account != "")) {
+				cands = append(cands, u)
+			}
+		}
+		if len(cands) > 0 {
+			u := cands[r.Intn(len(cands))]
+			for _, c2 := range js {
+				if c2.members[u] == nil {
+					if u.told {
+						u.account = ""
+						s.cat("extjoin-star-after-account")
+					}
+					s.joinEv(u, c2)
+					return
+				}
+			}
+		}
+	}
 	if !s.multiPrefix && len(s.prof.pmodes) > 1 && r.Intn(20) == 0 {
 		// without multi-prefix a NAMES refresh lists only the highest prefix: it replaces
 		// the privileges learnt from earlier MODE messages
@@ -736,6 +767,11 @@ func (s *sim) step() {
 	case k < 74:
 		u := ms[r.Intn(len(ms))]
 		u.account = Pick(r, "", "acct", "Other", "n[e]w")
+		if !s.acctNotify {
+			// no account-notify: the change shows only in later extended JOINs, WHOX replies and tags
+			s.cat("account-silent")
+			return
+		}
 		a := u.account
 		if a == "" {
 			a = "*"
@@ -776,7 +812,7 @@ func (s *sim) step() {
 	case k < 96:
 		s.srv("PING", Pick(r, "irc.test", "12345"))
 	case k < 97:
-		s.srv("005", s.me.nick, Pick(r, "MONITOR=100", "WHOX", "KNOCK", "ELIST=CMNTU"), Pick(r, "SILENCE=15", "STATUSMSG=@+", "TARGMAX=PRIVMSG:4"), "are supported by this server")
+		s.srv("005", s.me.nick, Pick(r, "MONITOR=100", "WHOX", "KNOCK", "ELIST=CMNTU"), Pick(r, "SILENCE=15", "STATUSMSG=@+", "TARGMAX=PRIVMSG:4", "KNOCK=", "CALLERID="), "are supported by this server")
 		s.cat("005-late")
 	case k < 98:
 		s.motd()
@@ -802,6 +838,7 @@ func genConformantN(r *rand.Rand, long bool) Case {
 	s := &sim{r: r, cats: map[string]bool{}, serverName: "irc.test"}
 	s.multiPrefix, s.uhNames, s.extJoin = r.Intn(2) == 0, r.Intn(2) == 0, r.Intn(2) == 0
 	s.whox, s.acctTag = r.Intn(2) == 0, r.Intn(2) == 0
+	s.acctNotify = r.Intn(3) != 0
 	s.prof = modeProfiles[r.Intn(len(modeProfiles))]
 	cfgNick := simMes[r.Intn(len(simMes))]
 	s.me = &simUser{nick: cfgNick, ident: Pick(r, "~user", "user"), host: Pick(r, "my.host.example", "192.0.2.1"), realname: "Real Name", account: Pick(r, "", "myacct")}
@@ -1157,35 +1194,6 @@ func runHistoryGuarded(nick, user string, evs []Ev) (obs, oracle string, ss *Sta
 	}
 }
 
-// runBeyond: histories a correct server may also send but which the assumptions listed in
-// conf/C04.json exclude from `conformant`; the oracle compares the API with the literal
-// reading of the history (Spec/NetRef.v told_run) regardless of conformance.
-func runBeyond(c Case) Result {
-	_, nick, user, evs, ok := DecodeHistory(c)
-	if !ok {
-		return Result{Obs: "?bad-args", Sig: ""}
-	}
-	obs, oracle, ss := runHistoryGuarded(nick, user, evs)
-	if ss == nil || obs == "WEDGED" || obs == "NOPONG" { // Stop could block on a leaked lock
-		return Result{Obs: obs, Oracle: oracle, Sig: "beyond"}
-	}
-	defer ss.Stop()
-	if oracle != "" || obs == "PANIC" {
-		return Result{Obs: obs, Oracle: oracle, Sig: "beyond"}
-	}
-	g := GetterDump(ss.C)
-	obs += ";g=" + g
-	told, err := RefTold(c)
-	if err != nil {
-		return Result{Obs: obs, Oracle: "spec-unavailable: " + err.Error(), Sig: "beyond"}
-	}
-	parts := strings.SplitN(told, ";", 3)
-	if len(parts) != 3 {
-		return Result{Obs: obs, Oracle: "spec-unavailable: unexpected answer " + clip(told), Sig: "beyond"}
-	}
-	return Result{Obs: obs, Oracle: diffDumps(g, parts[2]), Sig: "beyond"}
-}
-
 func runConformant(c Case) Result {
 	_, nick, user, evs, ok := DecodeHistory(c)
 	if !ok {
@@ -1238,6 +1246,7 @@ func init() {
 			usr := func(n, cmd string, ps ...string) Ev {
 				return Ev{HasSrc: true, Name: n, Ident: "~" + strings.ToLower(n[:1]), Host: "h.example", Cmd: cmd, Params: ps}
 			}
+			tagged := func(e Ev, acct string) Ev { e.HasAcct, e.Acct = true, acct; return e }
 			return []Case{
 				// the Example of Properties/C04.v
 				EncodeHistory("feed", "me", "user", []Ev{
@@ -1257,6 +1266,24 @@ func init() {
 				EncodeHistory("feed", "me", "user", []Ev{
 					srv("001", "me", "Welcome"), usr("me", "JOIN", "#c"), srv("MODE", "#c", "+m"), srv("MODE", "#c", "-m"),
 				}),
+				// (former finding) a user known from a plain NAMES line (no ident/host yet) joins another channel
+				EncodeHistory("feed", "me", "user", []Ev{
+					srv("001", "me", "Welcome"), usr("me", "JOIN", "#a"), srv("353", "me", "=", "#a", "me alice"),
+					usr("me", "JOIN", "#b"), srv("353", "me", "=", "#b", "me"), usr("alice", "JOIN", "#b"),
+				}),
+				// (former finding) extended-join shows "*" for a user we knew as logged in (no account-notify)
+				EncodeHistory("feed", "me", "user", []Ev{
+					srv("001", "me", "Welcome"), usr("me", "JOIN", "#a"), usr("me", "JOIN", "#b"),
+					usr("alice", "JOIN", "#a", "acct", "Alice"), usr("alice", "JOIN", "#b", "*", "Alice"),
+				}),
+				// (former finding) account-tag without extended-join on the JOIN of somebody new
+				EncodeHistory("feed", "me", "user", []Ev{
+					srv("001", "me", "Welcome"), usr("me", "JOIN", "#a"), tagged(usr("alice", "JOIN", "#a"), "acct"),
+				}),
+				// (former finding) an ISUPPORT token with an empty value
+				EncodeHistory("feed", "me", "user", []Ev{
+					srv("001", "me", "Welcome"), srv("005", "me", "SILENCE=", "NETWORK=Test", "are supported by this server"),
+				}),
 				// our own nick kicked in another spelling
 				EncodeHistory("feed", "me[]", "user", []Ev{
 					srv("001", "me[]", "Welcome"), usr("me[]", "JOIN", "#c"), srv("353", "me[]", "=", "#c", "me[] @op"), usr("op", "KICK", "#c", "ME{}", "out"),
@@ -1267,36 +1294,4 @@ func init() {
 		Run: runConformant,
 	})
 	Register(&Suite{Name: "state.conformant.long", Prop: []string{"C04"}, Gen: genConformantLong, Run: runConformant})
-	Register(&Suite{
-		Name: "state.beyond",
-		Prop: []string{"C04"},
-		Fixed: func() []Case {
-			srv := func(cmd string, ps ...string) Ev { return Ev{HasSrc: true, Name: "irc.test", Cmd: cmd, Params: ps} }
-			usr := func(n, cmd string, ps ...string) Ev {
-				return Ev{HasSrc: true, Name: n, Ident: "~" + strings.ToLower(n[:1]), Host: "h.example", Cmd: cmd, Params: ps}
-			}
-			tagged := func(e Ev, acct string) Ev { e.HasAcct, e.Acct = true, acct; return e }
-			return []Case{
-				// A1: a user known from a plain NAMES line (no ident/host yet) joins another channel
-				EncodeHistory("feed", "me", "user", []Ev{
-					srv("001", "me", "Welcome"), usr("me", "JOIN", "#a"), srv("353", "me", "=", "#a", "me alice"),
-					usr("me", "JOIN", "#b"), srv("353", "me", "=", "#b", "me"), usr("alice", "JOIN", "#b"),
-				}),
-				// A2: extended-join shows "*" for a user we knew as logged in (no account-notify)
-				EncodeHistory("feed", "me", "user", []Ev{
-					srv("001", "me", "Welcome"), usr("me", "JOIN", "#a"), usr("me", "JOIN", "#b"),
-					usr("alice", "JOIN", "#a", "acct", "Alice"), usr("alice", "JOIN", "#b", "*", "Alice"),
-				}),
-				// A3: account-tag without extended-join on the JOIN of somebody new
-				EncodeHistory("feed", "me", "user", []Ev{
-					srv("001", "me", "Welcome"), usr("me", "JOIN", "#a"), tagged(usr("alice", "JOIN", "#a"), "acct"),
-				}),
-				// A4: an ISUPPORT token with an empty value
-				EncodeHistory("feed", "me", "user", []Ev{
-					srv("001", "me", "Welcome"), srv("005", "me", "SILENCE=", "NETWORK=Test", "are supported by this server"),
-				}),
-			}
-		},
-		Run: runBeyond,
-	})
 }
